@@ -149,6 +149,15 @@ def run (args : List String) : Option String :=
       shape := sh, g := g, dtype := dt, isFloat := fl, dst := dst, nodata := nd, overwrite := ow,
       blocksize := b, resampling := rs, levels := lv, ovrBlocksize := ob, windowed := win, icomp := ic, extra := ex }
     pure (fmtTrace (writeCog a))
+  | ["wcoggcp", sh, g, dt, fl, dst, nd, ow, b, rs, lv, ob, win, ic, ex] => do
+    let sh ← parseList? parseNat? sh; let g ← parseYXo? g; let fl ← parseBool? fl; let dst ← parseDst? dst
+    let nd ← parseV? nd; let ow ← parseBool? ow; let b ← parseOpt? parseNat? b; let rs ← parseStrOpt? rs
+    let lv ← parseOpt? (parseList? parseNat?) lv; let ob ← parseOpt? parseNat? ob; let win ← parseBool? win
+    let ic ← parseIComp? ic; let ex ← parseDict? ex
+    let a : WArgs := {
+      shape := sh, g := g, dtype := dt, isFloat := fl, dst := dst, nodata := nd, overwrite := ow,
+      blocksize := b, resampling := rs, levels := lv, ovrBlocksize := ob, windowed := win, icomp := ic, extra := ex }
+    pure (fmtTrace (writeCogGcp a))
   | ["wlayers", ls, dst, ow, b, ob, ic, win, ex, uuid] => do
     let ls ← parseLayers? ls; let dst ← parseDst? dst; let ow ← parseBool? ow; let b ← parseOpt? parseNat? b
     let ob ← parseOpt? parseNat? ob; let ic ← parseIComp? ic; let win ← parseBool? win; let ex ← parseDict? ex
@@ -156,6 +165,13 @@ def run (args : List String) : Option String :=
       layers := ls, dst := dst, overwrite := ow, blocksize := b, ovrBlocksize := ob,
       icomp := ic, windowed := win, extra := ex, uuid := uuid }
     pure (fmtTrace (writeCogLayers a))
+  | ["wlayersfull", ls, dst, ow, b, ob, ic, win, ex, uuid] => do
+    let ls ← parseLayers? ls; let dst ← parseDst? dst; let ow ← parseBool? ow; let b ← parseOpt? parseNat? b
+    let ob ← parseOpt? parseNat? ob; let ic ← parseIComp? ic; let win ← parseBool? win; let ex ← parseDict? ex
+    let a : LArgs := {
+      layers := ls, dst := dst, overwrite := ow, blocksize := b, ovrBlocksize := ob,
+      icomp := ic, windowed := win, extra := ex, uuid := uuid }
+    pure (fmtTrace (writeCogLayersFull a))
   | ["wentry", which, im, dst, ow, b, ob, ovs, rs, lv, win, ic, ex, uuid] => do
     let im ← parseLayer? im; let dst ← parseDst? dst; let ow ← parseBool? ow; let b ← parseOpt? parseNat? b
     let ob ← parseOpt? parseNat? ob; let ovs ← parseOpt? parseLayers? ovs; let rs ← parseStrOpt? rs
